@@ -22,6 +22,9 @@ type Found struct {
 	Log         []string `json:"log"`
 	LogHash     string   `json:"log_hash"`
 	Sample      any      `json:"case,omitempty"`
+	// Hang: the run never came back (a call into go-sse spins or blocks outside the
+	// simulator's view); the trace is what had been drawn until then, not minimised.
+	Hang bool `json:"hang,omitempty"`
 	// Sequence is set by the driver when the minimised trace does not reproduce in a
 	// fresh process, i.e. the violation depends on state an earlier run of the same
 	// worker process left behind (a package-level variable of go-sse): the replay then
@@ -170,6 +173,28 @@ func pickViolation(o *Outcome, prop string, known []KnownFinding, res *WorkerRes
 	return pick
 }
 
+// hangLimit is the wall-clock time one simulated run may take (runs take
+// milliseconds). A run that exceeds it is stuck inside go-sse in a way the
+// simulator cannot see (a loop that never yields); it is reported as a
+// violation only if the driver reproduces the hang in a fresh process.
+const hangLimit = 20 * time.Second
+
+// runGuarded executes one run with the wall-clock guard.
+func runGuarded(w *World, rc *RunCtx) (o *Outcome, hung bool) {
+	done := make(chan *Outcome, 1)
+	go func() { done <- w.Run(rc) }()
+	select {
+	case o := <-done:
+		return o, false
+	case <-time.After(hangLimit):
+		return nil, true
+	}
+}
+
+func hangViolation(prop string) Violation {
+	return Violation{Prop: prop, Clause: "no-return", Detail: fmt.Sprintf("a call into go-sse did not return: the simulated run was still going after %v of wall-clock time (runs take milliseconds) and none of its goroutines reached a scheduling point", hangLimit)}
+}
+
 // WorkerMain is the body of the test binary's single test (see worker_test.go).
 func WorkerMain(t *testing.T) {
 	prop := os.Getenv("VERIF_PROP")
@@ -239,7 +264,15 @@ func WorkerMain(t *testing.T) {
 		}
 		idx := uint64(n)*uint64(nworkers) + uint64(worker)
 		ch := NewSearchChooser(seed, idx)
-		o := w.Run(&RunCtx{T: t, Ch: ch, Prop: prop, Tier: tier})
+		o, hung := runGuarded(w, &RunCtx{T: t, Ch: ch, Prop: prop, Tier: tier})
+		if hung {
+			res.Evaluations++
+			trace := append([]uint32(nil), ch.Rec...)
+			f := &Found{World: w.Name, Seed: seed, RunIndex: idx, Trace: trace, OrigLen: len(trace), Hang: true, LogHash: "hang"}
+			f.Violation = hangViolation(prop)
+			res.Found = f
+			break
+		}
 		res.Evaluations++
 		for k, v := range o.Faults {
 			res.Faults[k] += v
@@ -343,6 +376,21 @@ func replayMain(t *testing.T, w *World, prop, tier, path string) {
 	if err := json.Unmarshal(b, &f); err != nil {
 		fmt.Fprintf(os.Stderr, "replay: %v\n", err)
 		os.Exit(2)
+	}
+	if f.Hang {
+		_, hung := runGuarded(w, &RunCtx{T: t, Ch: NewReplayChooser(f.Trace), Prop: prop, Tier: tier, KeepLog: true})
+		type rep struct {
+			Reproduced bool     `json:"reproduced"`
+			SameLog    bool     `json:"same_log"`
+			Violation  string   `json:"violation"`
+			Log        []string `json:"log"`
+		}
+		r := rep{Reproduced: hung, SameLog: hung}
+		if hung {
+			r.Violation = hangViolation(f.Prop).String()
+		}
+		writeJSON(os.Getenv("VERIF_OUT"), r)
+		return
 	}
 	var o *Outcome
 	if f.Sequence {
